@@ -112,6 +112,7 @@ def run(ctx):
     ctx.need(have == PARAMS, "R05.1", "_svg_parameterize parameters changed: %s" % have)
     steps(ctx, fn)
     radius_sign(ctx, fn)
+    coincidence_is_absolute(ctx)
     stored_form(ctx, fn)
     degenerate(ctx, fn)
     polar_to_parameter(ctx)
@@ -432,3 +433,15 @@ def polar_to_parameter(ctx):
                 bad.append("angle %s turn: %s" % (ang, "half turn added" if added else "not corrected" if kept else got))
         ctx.ob("R05.5", "%s[half turn added exactly in the left half plane]" % qual, not bad, "; ".join(bad[:4]) or "%d representative angles" % n, fn.lineno,
                "atan2(rx tan a, ry) only yields the right half of the ellipse; for |a| mod 1 turn in (1/4, 3/4] the parameter is half a turn further - also for angles beyond +-3/4 turn, which occur because the angle is a difference of two atan2 values")
+
+
+def coincidence_is_absolute(ctx):
+    """"Coincident endpoints draw nothing" is decided with Point == Point.  Point.__eq__ compares each coordinate within the
+    module's absolute tolerance; a relative tolerance (math.isclose without rel_tol=0) would make distinct end points at
+    large coordinates coincide and turn a real arc into nothing."""
+    fn = ctx.fn("Point.__eq__", "R05.4")
+    calls = [c for c in ast.walk(fn) if isinstance(c, ast.Call) and call_name(c) in ("isclose", "math.isclose")]
+    bad = [c for c in calls if not any(k.arg == "rel_tol" and isinstance(k.value, ast.Constant) and k.value.value == 0 for k in c.keywords)]
+    cmps = [c for c in ast.walk(fn) if isinstance(c, ast.Compare) and len(c.ops) == 1 and isinstance(c.ops[0], (ast.LtE, ast.Lt)) and any(call_name(x) == "abs" for x in ast.walk(c.left) if isinstance(x, ast.Call))]
+    ctx.ob("R05.4", "Point.__eq__[absolute tolerance]", (bool(cmps) or bool(calls)) and not bad, "%d abs-difference comparison(s), %d isclose call(s) with a relative tolerance" % (len(cmps), len(bad)), fn.lineno,
+           "with a relative tolerance two distinct points near (1e5, 1e5) compare equal and `A 10,10 0 1,1 100000.00005,100000` from (100000, 100000) is taken for a coincident-endpoint arc")
